@@ -116,7 +116,7 @@ def check(ctx, rep):
     rep.count("worker loops", len(loops), 4)
     for li in loops:
         rep.note("loop %s: event %s, scanned %s, counters %s" % (li.target.qualname, li.event_field, sorted(li.scanned), sorted(li.counters)))
-    wake.check_loops(ctx, rep, loops)
+    wake.check_loops(ctx, rep, loops, components="state")
     wake.check_producers(ctx, rep, loops)
 
     flags = cancelling_flags(ctx)
